@@ -18,6 +18,9 @@ import (
 	"sync/atomic"
 	"time"
 
+	"golang.org/x/net/http2/hpack"
+
+	"verif/internal/h2peer"
 	"verif/internal/hello"
 	"verif/internal/rig"
 	"verif/internal/verdict"
@@ -26,14 +29,14 @@ import (
 var markers = []string{"fingerproxy/pkg/proxyserver", "fingerproxy/pkg/http2.(*serverConn)", "fingerproxy/pkg/hack"}
 
 type env struct {
-	run   *verdict.Run
-	be    *rig.Backend
-	px    *rig.Proxy
-	acct  *rig.AcctListener
-	th    time.Duration // handshake timeout
-	ti    time.Duration // idle timeout
-	name  string
-	base  int // baseline census
+	run  *verdict.Run
+	be   *rig.Backend
+	px   *rig.Proxy
+	acct *rig.AcctListener
+	th   time.Duration // handshake timeout
+	ti   time.Duration // idle timeout
+	name string
+	base int // baseline census
 }
 
 func newEnv(run *verdict.Run, be *rig.Backend, th, ti time.Duration, faults func(int, net.Conn) *rig.FaultPlan) *env {
@@ -391,11 +394,12 @@ func stallAt(c *net.TCPConn, step string, r interface{ Intn(int) int }) {
 func (e *env) timeouts() {
 	run := e.run
 	type obs struct {
-		sc      scen
-		T       time.Duration
-		from    time.Time
-		ac      *rig.AcctConn
-		c       net.Conn
+		sc   scen
+		T    time.Duration
+		from time.Time
+		lo   time.Time // earliest start of the timeout period (zero: same as from)
+		ac   *rig.AcctConn
+		c    net.Conn
 	}
 	var obsList []*obs
 	var mu sync.Mutex
@@ -416,28 +420,59 @@ func (e *env) timeouts() {
 			}(step)
 		}
 	}
+	// what the client does last before it goes silent (after at least one served request)
+	lastActs := map[string][]string{
+		"http/1.1": {"request"},
+		"h2":       {"request", "request", "refused-self-dependent-headers", "malformed-headers", "client-reset-stream", "ping", "priority-frame", "window-update", "settings"},
+	}
 	for _, proto := range []string{"http/1.1", "h2"} {
 		for rep := 0; rep < run.Pick(3, 6); rep++ {
-			wg.Add(1)
-			go func(proto string, rep int) {
-				defer wg.Done()
-				s, err := rig.Dial(e.px.Addr, []string{proto}, nil, nil)
-				if err != nil {
-					return
-				}
-				hn := rig.TagHeader
-				if proto == "h2" {
-					hn = "x-verif-tag"
-				}
-				for q := 0; q <= rep%2; q++ {
-					if _, err := s.Do("GET", "/idle", "front.example", [][2]string{{hn, fmt.Sprintf("C11-idle-%s-%d-%d", proto, rep, q)}}, nil, 10*time.Second); err != nil {
-						s.Close()
+			for _, act := range lastActs[proto] {
+				wg.Add(1)
+				go func(proto string, rep int, act string) {
+					defer wg.Done()
+					s, err := rig.Dial(e.px.Addr, []string{proto}, nil, nil)
+					if err != nil {
 						return
 					}
-				}
-				from := time.Now()
-				add(&obs{sc: scen{Kind: "idle-timeout", Proto: proto, Env: e.name}, T: e.ti, from: from, ac: e.find(s.Rec.Conn.LocalAddr(), W), c: s.TLS})
-			}(proto, rep)
+					hn := rig.TagHeader
+					if proto == "h2" {
+						hn = "x-verif-tag"
+					}
+					for q := 0; q <= rep%2; q++ {
+						if _, err := s.Do("GET", "/idle", "front.example", [][2]string{{hn, fmt.Sprintf("C11-idle-%s-%d-%d-%s", proto, rep, q, act)}}, nil, 10*time.Second); err != nil {
+							s.Close()
+							return
+						}
+					}
+					served := time.Now() // the idle period cannot start before the last served request completed
+					if proto == "h2" && act != "request" {
+						sid := s.TakeStreamID()
+						block := s.Peer.Encode(h2peer.GetFields("front.example", "/idle2"))
+						switch act {
+						case "refused-self-dependent-headers": // PRIORITY flag, depends on itself: stream error, no stream is created
+							pl := append([]byte{byte(sid >> 24), byte(sid >> 16), byte(sid >> 8), byte(sid), 16}, block...)
+							s.Peer.WriteRaw(h2peer.RawFrame(1, 0x25, sid, pl))
+						case "malformed-headers": // upper-case field name: rejected by the frame reader
+							bad := s.Peer.Encode(append(h2peer.GetFields("front.example", "/idle2"), hpack.HeaderField{Name: "X-Upper", Value: "1"}))
+							s.Peer.WriteRaw(h2peer.RawFrame(1, 0x5, sid, bad))
+						case "client-reset-stream":
+							s.Peer.WriteRaw(h2peer.RawFrame(1, 0x4, sid, s.Peer.Encode([]hpack.HeaderField{{Name: ":method", Value: "POST"}, {Name: ":scheme", Value: "https"}, {Name: ":authority", Value: "front.example"}, {Name: ":path", Value: "/idle2"}})))
+							s.Peer.WriteRaw(h2peer.RawFrame(3, 0, sid, []byte{0, 0, 0, 8}))
+						case "ping":
+						case "priority-frame":
+							s.Peer.WriteRaw(h2peer.RawFrame(2, 0, sid+20, []byte{0, 0, 0, 0, 9}))
+						case "window-update":
+							s.Peer.WriteRaw(h2peer.RawFrame(8, 0, 0, []byte{0, 0, 1, 0}))
+						case "settings":
+							s.Peer.WriteRaw(h2peer.RawFrame(4, 0, 0, []byte{0, 3, 0, 0, 0, 50}))
+						}
+						s.Peer.Fence(10 * time.Second) // the server has reacted to everything sent so far
+					}
+					from := time.Now()
+					add(&obs{sc: scen{Kind: "idle-timeout", Proto: proto, Step: "last client action: " + act, Env: e.name}, T: e.ti, from: from, lo: served, ac: e.find(s.Rec.Conn.LocalAddr(), W), c: s.TLS})
+				}(proto, rep, act)
+			}
 		}
 	}
 	wg.Wait()
@@ -452,6 +487,9 @@ func (e *env) timeouts() {
 		select {
 		case <-o.ac.Done:
 			d := o.ac.ClosedAt.Sub(o.from)
+			if !o.lo.IsZero() {
+				d = o.ac.ClosedAt.Sub(o.lo) // "not too early" is measured from the last served request
+			}
 			run.Add("timeouts_judged", 1)
 			if d < o.T*8/10 {
 				run.Violation("closed-too-early", o.sc, "%s (%s %s): closed after %v although the timeout is %v", o.sc.Kind, o.sc.Proto, o.sc.Step, d, o.T)
